@@ -5,6 +5,7 @@ import itertools
 from mc.core import UnitResult
 
 ID = "C16"
+PARTS = ['fix', 'ign', 'patch-alone']      # outcome classes every run must produce (guards against a part of the exploration silently not running)
 RULE = ("state = file text; transitions = apply one proposed Replacement (the first, as autofix does) with the real _apply_changes_to_lines, or one add-ignores step; the full reachable "
         "graph of every generated program is explored up to the fixpoint (revisited text or more than 2*#diagnostics+2 steps = non-termination). Programs: fix-bearing fragments "
         "(use_fstrings, missing_f, unused variable, too_many_positional_args, unused ignore) x enclosing statement shapes (return, dict display with ** unpacking, keyword-only "
